@@ -15,10 +15,10 @@ use tokio::io::{AsyncReadExt, AsyncWriteExt};
 use tokio::net::TcpListener;
 
 const RULE: &str = "one case = one raw HTTP/1.1 request (plus, where the statement demands indistinguishability, the same request on an unknown path) sent over a real socket to a real run_listener; \
-the matrix method x path x {valid, case change, absent, empty, near-miss x2, duplicated-invalid, duplicated-mixed, space-padded} for each of Connection / Upgrade / Sec-WebSocket-Version / Sec-WebSocket-Protocol x key {valid, absent, empty} x PSK presented {equal, absent, prefix, extended, case variant, padded} \
+the matrix method x path x {valid, case change, absent, empty, near-miss x2, duplicated-invalid, duplicated-mixed, space-padded} for each of Connection / Upgrade / Sec-WebSocket-Version / Sec-WebSocket-Protocol x key {valid, absent, empty} x request line {HTTP/1.1, HTTP/1.0} x PSK presented {equal, absent, prefix, extended, case variant, padded} \
 x server configuration {PSK on/off} x {obfs on/off} x {404 body, stub backend}: all cells with at most two deviations from the valid request are enumerated, random cells beyond. \
 Oracle: 101 iff the independent predicate holds, with the accepted protocol and our own SHA-1/base64 accept hash and a live WebSocket behind it (Ping answered); otherwise status/headers/body equal the unknown-path response and the stub backend saw the same request. \
-Cells the statement leaves open (duplicate header with one valid value, empty key) are executed without verdict. Non-trivial = the cell deviates from the valid request in at least one dimension or is answered 101";
+Cells the statement leaves open (duplicate header with one valid value, empty key, HTTP/1.0 request line) get no verdict on 101-or-not, but when refused they must be hidden like any other request. Non-trivial = the cell deviates from the valid request in at least one dimension or is answered 101";
 
 const PSK: &str = "S3cr3t-Psk";
 const KEY: &str = "dGhlIHNhbXBsZSBub25jZQ==";
@@ -56,6 +56,8 @@ struct Cell {
     h: [Hv; 4],
     key: Hv,
     psk: Psk,
+    /// the request line says HTTP/1.0 (the connection cannot be upgraded)
+    http10: bool,
 }
 
 const NAMES: [&str; 4] = ["Connection", "Upgrade", "Sec-WebSocket-Version", "Sec-WebSocket-Protocol"];
@@ -84,7 +86,7 @@ fn header_lines(i: usize, v: Hv) -> Vec<String> {
 }
 
 fn request_bytes(c: &Cell, path: &str) -> Vec<u8> {
-    let mut s = format!("{} {} HTTP/1.1\r\nHost: localhost\r\n", c.method, path);
+    let mut s = format!("{} {} HTTP/1.{}\r\nHost: localhost\r\n", c.method, path, if c.http10 { 0 } else { 1 });
     for i in 0..4 {
         for l in header_lines(i, c.h[i]) {
             s.push_str(&l);
@@ -117,7 +119,8 @@ fn valid_hv(v: Hv) -> bool {
 
 /// Some(true/false) = the statement decides; None = left open by the statement.
 fn expect_101(c: &Cell, psk_configured: bool) -> Option<bool> {
-    if c.h.iter().any(|v| *v == Hv::DupMixed) || c.key == Hv::Empty {
+    // HTTP/1.0: the statement lists no protocol version; a 1.0 connection cannot be upgraded, so 101-or-not is left open
+    if c.h.iter().any(|v| *v == Hv::DupMixed) || c.key == Hv::Empty || c.http10 {
         return None;
     }
     let ok = c.method == "GET" && c.path == "/ws" && c.h.iter().all(|v| valid_hv(*v)) && c.key == Hv::Valid && (!psk_configured || c.psk == Psk::Equal);
@@ -187,7 +190,7 @@ async fn start_server(cfg: &SrvCfg) -> (SocketAddr, Option<Recorded>) {
 }
 
 fn all_cells(max_dev: usize, rng: &mut Rng64, extra_random: usize) -> Vec<Cell> {
-    let base = Cell { method: "GET", path: "/ws", h: [Hv::Valid; 4], key: Hv::Valid, psk: Psk::Equal };
+    let base = Cell { method: "GET", path: "/ws", h: [Hv::Valid; 4], key: Hv::Valid, psk: Psk::Equal, http10: false };
     // dimension d -> list of single-deviation mutators
     let mut muts: Vec<Vec<Box<dyn Fn(&mut Cell)>>> = Vec::new();
     muts.push(["POST", "HEAD", "PUT", "OPTIONS"].into_iter().map(|m| Box::new(move |c: &mut Cell| c.method = m) as Box<dyn Fn(&mut Cell)>).collect());
@@ -197,6 +200,7 @@ fn all_cells(max_dev: usize, rng: &mut Rng64, extra_random: usize) -> Vec<Cell> 
     }
     muts.push([Hv::Absent, Hv::Empty].into_iter().map(|v| Box::new(move |c: &mut Cell| c.key = v) as Box<dyn Fn(&mut Cell)>).collect());
     muts.push([Psk::Absent, Psk::Prefix, Psk::Extended, Psk::CaseVar, Psk::Padded].into_iter().map(|v| Box::new(move |c: &mut Cell| c.psk = v) as Box<dyn Fn(&mut Cell)>).collect());
+    muts.push(vec![Box::new(|c: &mut Cell| c.http10 = true) as Box<dyn Fn(&mut Cell)>]);
     let mut out = vec![base];
     for d1 in 0..muts.len() {
         for m1 in &muts[d1] {
@@ -250,7 +254,7 @@ async fn run_cfg(st: &mut Stats, cfg: &SrvCfg, cells: &[Cell]) {
     let cfg_s = format!("psk={} obfs={} backend={}", cfg.psk, cfg.obfs, cfg.backend);
     for c in cells {
         st.evaluations += 1;
-        let deviates = *c != Cell { method: "GET", path: "/ws", h: [Hv::Valid; 4], key: Hv::Valid, psk: Psk::Equal };
+        let deviates = *c != Cell { method: "GET", path: "/ws", h: [Hv::Valid; 4], key: Hv::Valid, psk: Psk::Equal, http10: false };
         let req = request_bytes(c, c.path);
         let head_only = c.method == "HEAD";
         if let Some(r) = &rec {
@@ -272,8 +276,8 @@ async fn run_cfg(st: &mut Stats, cfg: &SrvCfg, cells: &[Cell]) {
             st.nontrivial(mix(fnv(format!("{c:?}").as_bytes()), fnv(cfg_s.as_bytes())));
         }
         match want {
-            None => {
-                st.count("unspecified_cells_executed", 1);
+            None if resp.status == 101 => {
+                st.count("unspecified_cells_answered_101", 1);
                 continue;
             }
             Some(true) => {
@@ -295,8 +299,13 @@ async fn run_cfg(st: &mut Stats, cfg: &SrvCfg, cells: &[Cell]) {
                     st.target("tunnels_probed", 1);
                 }
             }
-            Some(false) => {
-                st.target("expected_refusal", 1);
+            Some(false) | None => {
+                // (None: the statement leaves 101-or-not open, but a refusal is "every other request" and must be hidden)
+                if want.is_none() {
+                    st.count("unspecified_cells_refused", 1);
+                } else {
+                    st.target("expected_refusal", 1);
+                }
                 if resp.status == 101 {
                     let why = if c.method != "GET" { "method" } else if c.path != "/ws" { "path" } else if c.key != Hv::Valid { "key" } else if cfg.psk && c.psk != Psk::Equal { "psk" } else { "header" };
                     st.violation(Violation { signature: format!("invalid-upgrade-accepted|{why}"), detail: format!("the server answered 101 to a request that is not a fully valid, authenticated upgrade ({why}); cell {c:?} [{cfg_s}]"), replay: replay(resp.short()) });
